@@ -148,7 +148,10 @@ pub fn check(m: &Mat, p: &mut Probe) -> Check {
     let (r, n) = (m.rows, m.cols);
     let hb = m.to_bits();
     let rank = hb.rank();
-    let hs = m.to_sparse();
+    // one case in three reaches the conversion along another construction path of the matrix type
+    let path = if (m.ones.len() + m.rows) % 3 == 2 { ((m.ones.len() + 3 * m.cols) % 6) as u8 } else { 0 };
+    let hs = m.to_sparse_by(path);
+    p.class_if(path != 0, "built-by-bulk-insertion-or-parsing");
     // history: in two thirds of the cases the conversion is first called, on the same thread, on
     // another matrix of the same dimensions (the zero matrix, which is rejected, or [0 | I], which
     // is accepted); the function is stateless, so this must not influence the call under test
